@@ -16,11 +16,16 @@ CheckGrad(e) ==
       V == g.V
       free == {v \in 1..V : g.mask[v]}
       \* may the value clause be applied to function f ?
+      uniform(f) == \A r1, r2 \in x.contrib[f] : x.units[f][r1] = x.units[f][r2]
       judged(f) == IF e.merged
-                   THEN (e.ident /\ e.spanningAll)
+                   THEN \* identical realizations: judged for uniform weights (for other weights the recorded as-is deviation
+                        \* has no closed form, see known finding C02-merged-weighted-solve); shared perturbations: always
+                        (e.ident /\ e.spanningAll /\ uniform(f) /\ \A r \in x.contrib[f] : \A p \in 1..g.P : g.nanP[r][p] = 0)
                         \/ (e.shared /\ \A r \in x.contrib[f] : e.spanning[r] /\ \A p \in 1..g.P : g.nanP[r][p] = 0)
                    ELSE \A r \in x.contrib[f] : e.spanning[r]
       gq(f, v) == x.grad[f][v].q
+      \* the recorded deviation of merged estimation: exact gradient divided by the number of contributing realizations
+      scaledBy(f, v) == LET n == Cardinality(x.contrib[f]) IN <<gq(f, v)[1], gq(f, v)[2] * n>>
       \* observed for a standard deviation: the SQUARE of the gradient entry (rational), with its sign:
       \*   g = q / sigma,  g^2 = q^2 / Var,  q = sigma * g as in Ensemble!GradStdSigmaQ
       var(f) == VarQ(x.units[f], ColsAt(g, g.x)[f])
@@ -37,7 +42,10 @@ CheckGrad(e) ==
      ELSE IF \E f \in 1..3 : \E v \in (1..V) \ free : ~(e.grad[f][v].k = "q" /\ e.grad[f][v].zero) THEN "fixed_variable_gradient_nonzero"
      ELSE IF \E v \in (1..V) \ free : ~(e.wgrad[v].k = "q" /\ e.wgrad[v].zero) THEN "fixed_variable_gradient_nonzero"
      ELSE IF \E f \in 1..3 : judged(f) /\ g.est[f] = "mean" /\ \E v \in free : x.grad[f][v].st = "val" /\ ~ObsEq(e.grad[f][v], gq(f, v))
-          THEN (IF e.merged THEN "merged_gradient_value" ELSE "mean_gradient_value")
+          THEN (IF ~e.merged THEN "mean_gradient_value"
+                ELSE IF \A f \in 1..3 : (judged(f) /\ g.est[f] = "mean") => \A v \in free : x.grad[f][v].st = "val" => ObsEq(e.grad[f][v], scaledBy(f, v))
+                     THEN "merged_gradient_divided_by_number_of_contributing_realizations"
+                ELSE "merged_gradient_value")
      \* standard deviation: when function and gradient use the same realizations, gradient x reported deviation = q (small
      \* denominators); otherwise the square of the gradient entry = q^2 / Var over the gradient's own set
      ELSE IF \E f \in 1..3 : judged(f) /\ g.est[f] = "std" /\ var(f)[1] > 0 /\ \E v \in free : x.grad[f][v].st = "val" /\
